@@ -7,7 +7,7 @@
 (*   ii, si   initial / subsequent indent (strings)                        *)
 (*   bw       break_words                                                  *)
 (*   sep      "ascii" | "uax"                                              *)
-(*   splitter "none" | "hyphen" | "every2" | "every3"                      *)
+(*   splitter "none" | "hyphen" | "every2" | "every3" | "half"             *)
 (*   alg      "ff" | "opt"          pen  penalties record (for "opt")      *)
 (*   crlf     line ending is CRLF                                          *)
 (* The UAX #14 opportunities of each paragraph are an input: oppss[k] is   *)
